@@ -133,7 +133,7 @@ class Main(Part):
 
     def budget(self, tier):
         return {"quick": dict(examples=600, shards=6, seconds=80),
-                "thorough": dict(examples=5000, shards=16, seconds=900)}[tier]
+                "thorough": dict(examples=5000, shards=16, seconds=600)}[tier]
 
     def strategy(self, tier):
         return gen.corpus_case(max_extent=3)
@@ -208,7 +208,7 @@ class Metrics(Part):
 
     def budget(self, tier):
         return {"quick": dict(examples=200, shards=3, seconds=80),
-                "thorough": dict(examples=2500, shards=8, seconds=900)}[tier]
+                "thorough": dict(examples=2500, shards=8, seconds=600)}[tier]
 
     def strategy(self, tier):
         from .. import gen_metrics
